@@ -122,11 +122,11 @@ func binEngineUnits(m *monitor) []func() {
 		// quick: the test engine costs 0.5-1.5 CPU-s per block, so the first block's
 		// boundaries are swept here and the wider grid on compiled circuits
 		case r.Quick() && kind == "sha256":
-			lengths = append(first, 2*B-9, 2*B-8)
+			lengths = first // 119, 120, 128 are in the compiled sample
 		case r.Quick() && kind == "ripemd160":
-			lengths = []int{0, 1, B - 10, B - 9, B - 8, B - 7, B - 1, B, B + 1, 2*B - 9, 2*B - 8}
+			lengths = []int{0, 1, B - 10, B - 9, B - 8, B - 7, B - 1, B, B + 1}
 		case r.Quick() && kind == "sha3-256":
-			lengths = []int{0, 1, B - 2, B - 1, B, B + 1, 2*B - 1, 2 * B}
+			lengths = []int{0, 1, B - 2, B - 1, B, B + 1, 2*B - 1}
 		case r.Quick() && (kind == "keccak256" || kind == "keccak512"): // the sha3-256 / sha3-512 code with another dsbyte
 			lengths = []int{0, B - 1, B}
 		case r.Quick():
@@ -211,7 +211,7 @@ func binEngineUnits(m *monitor) []func() {
 	// other native fields: the gadgets are generic over the field
 	others := []*curveNat{curveNats[1]}
 	if r.Thorough() {
-		others = []*curveNat{curveNats[1], curveNats[2], curveNats[5]}
+		others = []*curveNat{curveNats[1], curveNats[5]}
 	}
 	for _, cv := range others {
 		cv := cv
@@ -222,7 +222,7 @@ func binEngineUnits(m *monitor) []func() {
 			B := k.block
 			lengths := []int{0, B}
 			if r.Thorough() {
-				lengths = boundaryLengths(k, 2)
+				lengths = boundaryLengths(k, 1)
 			}
 			for i, n := range lengths {
 				content := contents[i%len(contents)]
@@ -287,17 +287,17 @@ func fixedJobs(r *vcore.Run, rng *rand.Rand, kind string) []binJob {
 	var grids []grid
 	switch {
 	case r.Quick() && kind == "sha256":
-		grids = []grid{{0, -1}, {1, -1}, {55, 3}, {56, 4}, {64, 4}, {120, 3}}
+		grids = []grid{{0, -1}, {1, -1}, {55, 3}, {56, 4}, {64, 4}, {120, 2}}
 	case r.Quick() && kind == "sha3-256":
-		grids = []grid{{0, -1}, {B - 1, 3}, {B, 4}, {B + 1, 3}}
+		grids = []grid{{0, -1}, {B - 1, 3}, {B, 4}, {B + 1, 2}}
 	case r.Quick():
 		grids = []grid{{B, 3}}
 	case kind == "sha256":
-		grids = []grid{{0, -1}, {1, -1}, {2, -1}, {55, -1}, {56, -1}, {64, 30}, {65, 20}, {119, 20}, {120, 20}, {128, 20}, {183, 12}}
+		grids = []grid{{0, -1}, {1, -1}, {2, -1}, {55, -1}, {56, 30}, {64, 30}, {65, 20}, {119, 20}, {120, 20}, {128, 20}, {183, 12}}
 	default:
 		grids = []grid{{0, -1}, {1, -1}, {B - 1, 12}, {B, 12}, {B + 1, 12}, {2 * B, 10}, {2*B + 1, 10}}
-		if kind == "sha3-512" || kind == "keccak256" {
-			grids[4].n = -1 // every actual length for one declared maximum (both rates, both domain bytes)
+		if kind == "sha3-512" {
+			grids[4].n = -1 // every actual length for one declared maximum
 		}
 	}
 	var jobs []binJob
@@ -317,7 +317,7 @@ func fixedJobs(r *vcore.Run, rng *rand.Rand, kind string) []binJob {
 	var mls []ml
 	switch {
 	case r.Quick() && kind == "sha256":
-		mls = []ml{{64, 64, 1}, {120, 56, 3}}
+		mls = []ml{{64, 64, 1}, {120, 56, 2}}
 	case r.Quick() && (kind == "sha3-256" || kind == "keccak512"):
 		mls = []ml{{B + 1, B - 1, 2}}
 	case r.Quick():
@@ -643,7 +643,7 @@ func merkleDepth(m *monitor, e engine, spec fhSpec, depth int, every bool) {
 	run, _, err := e.prepare(merkleShape(spec, depth))
 	if err != nil {
 		r.Eval(fmt.Sprintf("%s|merkle|%s|%d", e, spec, depth), true)
-		r.Violation("compile-error/"+class+"/"+e.name, "Merkle circuit does not compile: "+firstLine(err), map[string]any{"curve": cv.name, "depth": depth, "error": err.Error()})
+		r.Violation("compile-error/"+class+"/"+e.String(), "Merkle circuit does not compile: "+firstLine(err), map[string]any{"curve": cv.name, "depth": depth, "error": err.Error()})
 		return
 	}
 	// same trees for every engine
